@@ -159,6 +159,9 @@ func (c *solverCase) variants(over actOverride, wscale float64) []variant {
 		{"direct", func() (*network.Network, error) { return c.Net.direct(over, wscale), nil }, false},
 		{"genome", func() (*network.Network, error) { return c.Net.viaGenome(over, wscale) }, false},
 	}
+	if len(c.Net.Outputs) > 1 {
+		vs = append(vs, variant{"direct, neurons of the all-nodes list reversed", func() (*network.Network, error) { return c.Net.directShuffled(over, wscale), nil }, false})
+	}
 	if c.Net.hasBias() {
 		vs = append(vs, variant{"direct+bias-passed", func() (*network.Network, error) { return c.Net.direct(over, wscale), nil }, true})
 	}
